@@ -14,6 +14,7 @@
 #include <boost/shared_array.hpp>
 #include <boost/any.hpp>
 #include <iostream>
+#include <functional>
 #include "PyImathUtil.h"
 #include "ImathVec.h"
 
@@ -521,6 +522,15 @@ class FixedArray
             boost::python::throw_error_already_set();
         }
 
+        // The source may be a view of this array's own storage (a[::-1] = a,
+        // a[1:4] = a[mask]): read all of it before anything is overwritten.
+        if (sharesStorageWith(data))
+        {
+            const ArrayType tmp (copyOf(data));
+            setitem_vector(index, tmp);
+            return;
+        }
+
         if (isMaskedReference())
         {
             for (size_t i=0; i<slicelength; ++i)
@@ -549,6 +559,16 @@ class FixedArray
         }
 
         size_t len = match_dimension(mask);
+
+        // As in setitem_vector: a source that is a view of this array's own
+        // storage is read before anything is overwritten.
+        if (sharesStorageWith(data))
+        {
+            const ArrayType tmp (copyOf(data));
+            setitem_vector_mask(mask, tmp);
+            return;
+        }
+
         if ((size_t)data.len() == len)
         {
             for (size_t i = 0; i < len; ++i)
@@ -574,6 +594,30 @@ class FixedArray
                 }
             }
         }
+    }
+
+    // True if 'other' refers to memory that this array refers to as well
+    // (the same array, or two views of the same storage).  Conservative:
+    // compares the address ranges the two arrays span.
+    bool sharesStorageWith(const FixedArray &other) const
+    {
+        const T* b0 = _ptr;
+        const T* e0 = _ptr + (isMaskedReference() ? _unmaskedLength : _length) * _stride;
+        const T* b1 = other._ptr;
+        const T* e1 = other._ptr + (other.isMaskedReference() ? other._unmaskedLength : other._length) * other._stride;
+        return std::less<const T*>()(b0, e1) && std::less<const T*>()(b1, e0);
+    }
+    template <class S>
+    bool sharesStorageWith(const S &) const { return false; }
+
+    // A new array with storage of its own that holds the elements 'a' selects.
+    template <class ArrayType>
+    static ArrayType copyOf(const ArrayType &a)
+    {
+        ArrayType tmp (a.len());
+        for (size_t i = 0, n = a.len(); i < n; ++i)
+            tmp[i] = a[i];
+        return tmp;
     }
 
     // exposed as Py_ssize_t for compatilbity with standard python sequences
